@@ -77,6 +77,7 @@ def main():
         if si == 0:
             srcs, tgts = combos, combos[::7]
         ncase = [0]
+        nser = [0]
         for (sk, sf, sp), (tk, tf, tp) in itertools.product(srcs, tgts):
             for suf in SUF:
                 series = suf == " each month"
@@ -126,7 +127,8 @@ def main():
                     bad("in_units:exception", dict(src=[tk, tf, tp, suf], tgt=[sk, sf, sp], exc=repr(ex)[:100]))
                 # single values derived from a series keep their own form through a conversion: a total stays a total (sum, minimum,
                 # maximum over the months), one month stays "per month"
-                if series and ncase[0] % 3 == 0:
+                nser[0] += 1 if series else 0
+                if series and nser[0] % 3 == 0:
                     k0, f0, p0 = [np.asarray(x, dtype=float) for x in (src.kcals, src.fat, src.protein)]
                     for dn, mk_d, dsuf, nums in (("sum", lambda: src.get_nutrients_sum(), "", (k0.sum(), f0.sum(), p0.sum())),
                                                  ("month", lambda: src.get_month(1), " per month", (k0[1], f0[1], p0[1])),
